@@ -198,7 +198,7 @@ def tlc(module, cfg, wd, *, workers=4, timeout=900, env=None, simulate=None, dep
             m = re.match(r"^Error: Action property (\w+) is violated", ln)
             if m:
                 r.violated = m.group(1)
-            if ln.startswith("Error: Temporal properties were violated"):
+            if ln.startswith("Error: Temporal propert"):
                 r.violated = "temporal"
             if ln.startswith("Error:") and r.violated is None and r.error is None:
                 r.error = ln.strip()
@@ -371,3 +371,55 @@ def generic_replay(case):
     re-run by hand (each check's module may define a sharper replay())."""
     print(json.dumps(case, indent=1, ensure_ascii=False)[:6000])
     return 0
+
+
+def trace_accept(module, cfg, wd, trace_path, *, timeout=900, tag=None, env=None):
+    """Leg C for trace specs with silent steps (acceptance = highest record reached, TLCSet register).
+    Returns (TlcResult, reached, total)."""
+    e = {"TRACE": trace_path}
+    if env:
+        e.update(env)
+    r = tlc(module, cfg, wd, workers=1, timeout=timeout, env=e, dfs=True, tag=tag)
+    t = list(r.tuples("TRACE_REACHED"))
+    if not t:
+        log(r.tail())
+        raise ToolError("trace spec %s printed no TRACE_REACHED" % module)
+    reached = int(re.findall(r"-?\d+", t[-1])[-1])
+    total = sum(1 for _ in open(trace_path))
+    return r, reached, total
+
+
+def validate_runs(module, cfg, wd, trace_path, start_ev, *, timeout=900, max_rejections=5, start_key="ev"):
+    """Validate a concatenation of runs (each beginning with a record whose ev = start_ev).  On a
+    rejection the offending run is reported and validation resumes after it, so that the rest of
+    the trace is still examined.  Returns (last TlcResult, runs_total, rejections[list of dict])."""
+    recs = read_ndjson(trace_path)
+    rejections = []
+    offset = 0
+    last = None
+    states = trans = 0
+    while True:
+        part = recs[offset:]
+        if not part:
+            break
+        p = trace_path + ".part"
+        write_ndjson(p, part)
+        r, reached, total = trace_accept(module, cfg, wd, p, timeout=timeout, tag="%s_%d" % (module, len(rejections)))
+        last = r
+        states += r.distinct
+        trans += r.generated
+        if reached >= total:
+            break
+        # record index (0-based in part) of the first unexplained record = reached
+        bad = offset + reached
+        start = max(i for i in range(bad + 1) if recs[i].get(start_key) == start_ev)
+        nxt = next((i for i in range(bad + 1, len(recs)) if recs[i].get(start_key) == start_ev), len(recs))
+        rejections.append({"first_unexplained_record": recs[bad], "index": bad, "run": recs[start:nxt][:60]})
+        offset = nxt
+        if len(rejections) >= max_rejections:
+            break
+    os.remove(trace_path + ".part") if os.path.exists(trace_path + ".part") else None
+    if last is not None:
+        last.distinct, last.generated = states, trans
+    nruns = sum(1 for x in recs if x.get(start_key) == start_ev)
+    return last, nruns, rejections
